@@ -72,7 +72,8 @@ def gen_decl(rng, dg, idx, existing_names):
     if existing_names and rng.random() < 0.5:
         n = rng.choice(existing_names)
         if all(k["name"] != n for k, _ in props):
-            key = {"name": n, "source": dsl.SOURCES.get(n) or n}
+            # the overriding declaration chooses its own JSON name: the inherited alias, none at all, or another one
+            key = {"name": n, "source": rng.choice([dsl.SOURCES.get(n) or n, n, n, "alt " + n])}
             if rng.random() < 0.5:
                 key["required"] = True
             props.append([key, dg.leaf()])
